@@ -233,7 +233,11 @@ func checkC18(c *Check) {
 			}
 		}
 		okKey, nAcc := urlParam != nil, 0
-		for _, b := range gw.Blocks {
+		for _, gf := range deepFuncs(gw, 2) {
+		if pkgPathOf(gf) != pkgOIDC {
+			continue
+		}
+		for _, b := range gf.Blocks {
 			for _, ins := range b.Instrs {
 				var idx, mp ssa.Value
 				switch x := ins.(type) {
@@ -249,10 +253,11 @@ func checkC18(c *Check) {
 					continue
 				}
 				nAcc++
-				if resolveCell(stripConv(idx)) != ssa.Value(urlParam) {
+				if !originsAre(P, idx, urlParam, 2) {
 					okKey = false
 				}
 			}
+		}
 		}
 		fetchSame := false
 		for _, ci := range callsTo(gw, "net/http.Client.Get") {
